@@ -58,9 +58,11 @@ PROPS["C14"] = {
         },
         {
             # the layer the hooked calls wait in: EventLoop::timed_wait_just over the mio model (time passes inside the OS poll)
-            "mounts": [("c14_wait.rs", "net/event_loop.rs")],
-            "harnesses": ["c14_timed_wait_just_not_early"],
-            "timeout": 900,
+            "mounts": [("c14_wait.rs", "net/event_loop.rs")], "cfgs": ["ocv_small"],
+            # thorough tier only: 2 polls = 100 s symbolic execution + 965 s SAT (measured under load), 3 polls = 190 s + 1531 s
+            "tier": "thorough",
+            "harnesses": ["c14_timed_wait_just_not_early_2_polls", "c14_timed_wait_just_not_early"],
+            "timeout_thorough": 3400, "mem_gb": 40, "jobs": 2,
         },
     ],
 }
@@ -223,16 +225,19 @@ PROPS["C21"] = {
     "assumptions": _SEL_ASSUME,
     "groups": [
         {
+            "mounts": [("c20_selector.rs", "net/selector/mod.rs")], "cfgs": ["ocv_small"],
+            "harnesses": ['c21_step_close_and_reuse_from_both', 'c21_step_close_and_reuse_from_none', 'c21_step_close_and_reuse_from_read', 'c21_step_close_and_reuse_from_write', 'c21_step_del_both_from_both', 'c21_step_del_both_from_none', 'c21_step_del_both_from_read', 'c21_step_del_both_from_write', 'c21_step_del_read_from_both', 'c21_step_del_read_from_none', 'c21_step_del_read_from_read', 'c21_step_del_read_from_write', 'c21_step_del_write_from_both', 'c21_step_del_write_from_none', 'c21_step_del_write_from_read', 'c21_step_del_write_from_write', 'c21_step_event_delivered_from_both', 'c21_step_event_delivered_from_none', 'c21_step_event_delivered_from_read', 'c21_step_event_delivered_from_write', 'c21_step_hooked_close_from_both', 'c21_step_hooked_close_from_none', 'c21_step_hooked_close_from_read', 'c21_step_hooked_close_from_write', 'c21_step_wait_read_from_both', 'c21_step_wait_read_from_none', 'c21_step_wait_read_from_read', 'c21_step_wait_read_from_write', 'c21_step_wait_write_from_both', 'c21_step_wait_write_from_none', 'c21_step_wait_write_from_read', 'c21_step_wait_write_from_write'],
+            "timeout": 900, "jobs": 8,
+            "bounds": "one operation on descriptor 0 from each of its 4 interest states (concrete), everything else symbolic; model containers of 2 entries; unwind 3",
+        },
+        {
             "mounts": [("c20_selector.rs", "net/selector/mod.rs")],
-            "harnesses": ["c21_step_wait_read", "c21_step_wait_write", "c21_step_del_both", "c21_step_del_read", "c21_step_del_write",
-                          "c21_step_close_and_reuse", "c21_step_event_delivered", "c21_step_hooked_close",
-                          "c21_rewait_after_event", "c21_two_event_loops"],
+            "harnesses": ["c21_rewait_after_event", "c21_two_event_loops"],
             "thorough_harnesses": ["c21_interest_history_3", "c21_interest_history_4"],
-            "timeout": 900, "timeout_thorough": 3000, "jobs": 5,
+            "timeout": 900, "timeout_thorough": 3000,
         },
     ],
 }
-
 PROPS["C25"] = {
     "functions": ["coroutine::local::CoroutineLocal::{put,get,get_mut,remove}", "drop of CoroutineLocal"],
     "bounds": "every history of 3 (quick) / 4 (thorough) operations from {put, get, get_mut+write, remove} over 2 keys x 2 coroutine-locals "
@@ -299,7 +304,7 @@ PROPS["C02"] = {
                     "dashmap / st3 / crossbeam-skiplist / crossbeam-deque / rand model crates; queue beans pre-created with 2 local queues of capacity 2",
                     "common::now stubbed; alloc::fmt::format stubbed"],
     "groups": [
-        {"mounts": [("c02_join.rs", "co_pool/mod.rs")], "subs": _C02_SUBS,
+        {"mounts": [("c02_join.rs", "co_pool/mod.rs")], "subs": _C02_SUBS, "cfgs": ["ocv_small"],
          "harnesses": ["c02_join_returns_own_result", "c02_completion_at_point_0", "c02_completion_at_point_1", "c02_completion_at_point_2",
                        "c02_completion_at_point_3", "c02_completion_at_point_4", "c02_completion_at_point_5", "c02_completion_at_point_6",
                        "c02_completion_at_point_7", "c02_completion_while_blocked",
@@ -308,6 +313,8 @@ PROPS["C02"] = {
     ],
 }
 
+PROPS["CXX"] = {"functions": [], "bounds": "", "outside": "", "assumptions": [], "groups": [
+    {"mounts": [("c02_min.rs", "co_pool/mod.rs")], "subs": _C02_SUBS, "harnesses": ["c12_lifecycle_only_moves_forward"], "timeout": 600}]}
 PROPS["C12"] = {
     "functions": ["co_pool::state::{stopping,stopped,change_state}", "CoroutinePool::{submit_task,do_clean,wait_task_result,notify,size}"],
     "bounds": "arbitrary pool state, 3 symbolic lifecycle requests; one submission from an arbitrary state; one waiter (any non-zero task id) "
@@ -316,9 +323,10 @@ PROPS["C12"] = {
                "coroutines); concurrent submit/stop interleavings beyond the one block point.",
     "assumptions": ["E5 verif_sync Mutex/Condvar model", "queue beans pre-created small; model crates"],
     "groups": [
-        {"mounts": [("c02_join.rs", "co_pool/mod.rs")], "subs": _C02_SUBS,
+        {"mounts": [("c02_join.rs", "co_pool/mod.rs")], "subs": _C02_SUBS, "cfgs": ["ocv_small"],
          "harnesses": ["c12_lifecycle_only_moves_forward", "c12_stop_rejects_new_work", "c12_stop_settles_waiters"],
-         "timeout": 1200, "jobs": 3, "mem_gb": 14},
+         "thorough_harnesses": ["c12_running_pool_accepts_work"],
+         "timeout": 1200, "timeout_thorough": 3000, "jobs": 3, "mem_gb": 14},
     ],
 }
 PROPS["C11"] = {
@@ -330,7 +338,7 @@ PROPS["C11"] = {
                "bodies (std HashMap/BinaryHeap + stack switching), not encodable here.",
     "assumptions": ["E5 verif_sync model", "queue beans pre-created small; model crates", "no task is queued while the listener runs (try_grow returns early)"],
     "groups": [
-        {"mounts": [("c02_join.rs", "co_pool/mod.rs")], "subs": _C02_SUBS,
+        {"mounts": [("c02_join.rs", "co_pool/mod.rs")], "subs": _C02_SUBS, "cfgs": ["ocv_small"],
          "harnesses": ["c11_listener_counts_terminated_workers", "c11_submit_co_respects_max_size"],
          "timeout": 1200, "jobs": 2, "mem_gb": 14},
     ],
@@ -343,7 +351,7 @@ PROPS["C13"] = {
                "coroutine bodies; the cross-coroutine leak of a cancel request is decided under C09).",
     "assumptions": ["E5 verif_sync Mutex/Condvar model", "queue beans pre-created small; model crates"],
     "groups": [
-        {"mounts": [("c02_join.rs", "co_pool/mod.rs")], "subs": _C02_SUBS,
+        {"mounts": [("c02_join.rs", "co_pool/mod.rs")], "subs": _C02_SUBS, "cfgs": ["ocv_small"],
          "harnesses": ["c13_cancel_before_start_affects_only_that_task", "c13_waiter_of_a_cancelled_task_is_not_left_blocked"],
          "timeout": 1200, "jobs": 2, "mem_gb": 14},
     ],
@@ -355,12 +363,12 @@ PROPS["C04"] = {
                   "ordered_work_steal::OrderedWorkStealQueue::{push_with_priority,pop}"],
     "bounds": "histories push(l0)^a pop(l1) push(l0)^b pop(l1) push(l0)^c over 2 local handles of capacity 2, exhaustively case-split over (a,b,c) in {0,1,2}^3 "
               "(6 instances in the quick tier, all 27 in the thorough tier), each with a symbolic i64 priority and a symbolic steal start index "
-              "(pop(l1) on an empty l1 steals from l0); unwind 6 with unwinding assertions as the property.",
+              "(pop(l1) on an empty l1 steals from l0); unwind 4 with unwinding assertions as the property.",
     "outside": "capacities > 2, more than 2 local queues, several priorities at once, real concurrency (C03), task/coroutine submission wrappers "
                "(they are one push plus a notify).",
     "assumptions": ["st3 / crossbeam-skiplist / crossbeam-deque / rand model crates (sequential contracts; the steal start index is symbolic)"],
     "groups": [
-        {"mounts": [("c04_ows.rs", "common/ordered_work_steal.rs")],
+        {"mounts": [("c04_ows.rs", "common/ordered_work_steal.rs")], "cfgs": ["ocv_small"],
          "harnesses": ['c04_ows_history_122_terminates', 'c04_ows_history_200_terminates', 'c04_ows_history_211_terminates', 'c04_ows_history_212_terminates', 'c04_ows_history_221_terminates', 'c04_ows_history_222_terminates'],
          "thorough_harnesses": ['c04_ows_history_000_terminates', 'c04_ows_history_001_terminates', 'c04_ows_history_002_terminates', 'c04_ows_history_010_terminates', 'c04_ows_history_011_terminates', 'c04_ows_history_012_terminates', 'c04_ows_history_020_terminates', 'c04_ows_history_021_terminates', 'c04_ows_history_022_terminates', 'c04_ows_history_100_terminates', 'c04_ows_history_101_terminates', 'c04_ows_history_102_terminates', 'c04_ows_history_110_terminates', 'c04_ows_history_111_terminates', 'c04_ows_history_112_terminates', 'c04_ows_history_120_terminates', 'c04_ows_history_121_terminates', 'c04_ows_history_201_terminates', 'c04_ows_history_202_terminates', 'c04_ows_history_210_terminates', 'c04_ows_history_220_terminates'],
          "timeout": 900, "timeout_thorough": 1800, "jobs": 6, "mem_gb": 12},
@@ -383,7 +391,7 @@ PROPS["C05"] = {
 }
 
 PROPS["C06"]["groups"].append(
-    {"mounts": [("c04_ows.rs", "common/ordered_work_steal.rs")],
+    {"mounts": [("c04_ows.rs", "common/ordered_work_steal.rs")], "cfgs": ["ocv_small"],
      "harnesses": ['c06_ows_history_120_idle_victim_finds_work', 'c06_ows_history_200_idle_victim_finds_work', 'c06_ows_history_210_idle_victim_finds_work', 'c06_ows_history_211_idle_victim_finds_work', 'c06_ows_history_220_idle_victim_finds_work', 'c06_ows_history_221_idle_victim_finds_work'],
      "thorough_harnesses": ['c06_ows_history_000_idle_victim_finds_work', 'c06_ows_history_001_idle_victim_finds_work', 'c06_ows_history_002_idle_victim_finds_work', 'c06_ows_history_010_idle_victim_finds_work', 'c06_ows_history_011_idle_victim_finds_work', 'c06_ows_history_012_idle_victim_finds_work', 'c06_ows_history_020_idle_victim_finds_work', 'c06_ows_history_021_idle_victim_finds_work', 'c06_ows_history_022_idle_victim_finds_work', 'c06_ows_history_100_idle_victim_finds_work', 'c06_ows_history_101_idle_victim_finds_work', 'c06_ows_history_102_idle_victim_finds_work', 'c06_ows_history_110_idle_victim_finds_work', 'c06_ows_history_111_idle_victim_finds_work', 'c06_ows_history_112_idle_victim_finds_work', 'c06_ows_history_121_idle_victim_finds_work', 'c06_ows_history_122_idle_victim_finds_work', 'c06_ows_history_201_idle_victim_finds_work', 'c06_ows_history_202_idle_victim_finds_work', 'c06_ows_history_212_idle_victim_finds_work', 'c06_ows_history_222_idle_victim_finds_work'],
      "timeout": 900, "timeout_thorough": 1800, "jobs": 6, "mem_gb": 12,
@@ -391,17 +399,20 @@ PROPS["C06"]["groups"].append(
 
 PROPS["C03"] = {
     "functions": ["work_steal::WorkStealQueue::{push,pop,len}", "ordered_work_steal::OrderedWorkStealQueue::{push_with_priority,pop,len}"],
-    "bounds": "2 threads x 1 operation each (all pairs of push/pop) on a shared queue pre-filled with 0..=2 items, thread B's whole "
-              "operation placed at one symbolic scheduling point inside thread A's (every Injector/SkipMap operation and every atomic "
-              "operation is one) or after it; priorities in {0,1}; SeqCst.",
-    "outside": "3 threads, non-nested interleavings, weak memory, internals of st3/crossbeam (trusted linearizable), local-queue steals (sequential "
-               "parts are decided under C04/C05/C06).",
+    "bounds": "plain queue: 2 threads x 1 operation each (all four pairs of push/pop) on a shared queue pre-filled with 0..=2 items, thread B's whole "
+              "operation placed at one symbolic scheduling point inside thread A's (every Injector operation and every atomic operation is one) "
+              "or after it; ordered queue: the push/push pair only, priorities in {0,1}; SeqCst.",
+    "outside": "ordered-queue pairs that involve a pop (out of memory), 3 threads, non-nested interleavings, weak memory, internals of st3/crossbeam "
+               "(trusted linearizable), local queues and steals between them (the ordered local queue's stale length after a sibling's steal is a "
+               "native-only finding, DESIGN 8.2), drain-returns-exactly-the-rest for local queues.",
     "assumptions": ["E5 yielding atomics in the two queue files", "crossbeam-deque / crossbeam-skiplist model crates", "one pre-emption (DESIGN 2.7)"],
     "groups": [
         {"mounts": [("c03_ws_conc.rs", "common/work_steal.rs")], "atomics": ["common/work_steal.rs"],
          "harnesses": ["c03_ws_global_race"], "timeout": 900},
         {"mounts": [("c03_ows_conc.rs", "common/ordered_work_steal.rs")], "atomics": ["common/ordered_work_steal.rs"],
-         "harnesses": ["c03_ows_race_push_push", "c03_ows_race_push_pop", "c03_ows_race_pop_push", "c03_ows_race_pop_pop"], "timeout": 900, "jobs": 4},
+         # only the push/push pair of the ordered queue fits: the three pairs with a pop (skip-list iteration + injector steal inside the
+         # pre-empted operation) ran CBMC out of memory (20 GB) after 170-210 s of symbolic execution; they stay in the harness file
+         "harnesses": ["c03_ows_race_push_push"], "timeout": 900},
     ],
 }
 
@@ -441,7 +452,7 @@ PROPS["C09"] = {
             "harnesses": ["c09_step_plain_suspend", "c09_step_delay", "c09_step_cancel", "c09_step_delay_in_syscall_state",
                           "c09_step_cancel_in_syscall_state"],
             "thorough_harnesses": ["c09_running_state_requests", "c09_syscall_state_requests"],
-            "timeout": 900, "timeout_thorough": 3000, "jobs": 5,
+            "timeout": 900, "timeout_thorough": 3000, "jobs": 6,
         },
     ],
 }
@@ -475,15 +486,15 @@ PROPS["C25"]["groups"].append({
 })
 PROPS["C07"]["groups"].append({
     "mounts": [("c09_requests.rs", "coroutine/suspender.rs")],
-    "harnesses": ["c07_scripted_body_path"],
-    "timeout": 900,
+    "harnesses": ["c07_scripted_body_suspend_first", "c07_scripted_body_delay_first", "c07_scripted_body_cancel_first", "c07_scripted_body_return_first"],
+    "timeout": 900, "jobs": 4,
 })
 
 
 # Properties claimed in MANIFEST.json: their quick checks were run from the committed tree on the unchanged
 # repository and are quiet. The other entries above are development harnesses (runnable through bin/check,
 # not claimed; reasons in not_applicable.py).
-CLAIMED = ["C14", "C16", "C17", "C18", "C19", "C20", "C25", "C28"]
+CLAIMED = ["C03", "C07", "C08", "C09", "C14", "C16", "C17", "C18", "C19", "C20", "C21", "C25", "C26", "C28"]
 
 
 # Coroutine / pool harness groups: listener calls are `dyn Listener`; without vtable restriction CBMC takes the coroutine's own
@@ -491,9 +502,11 @@ CLAIMED = ["C14", "C16", "C17", "C18", "C19", "C20", "C25", "C28"]
 # a listener), which makes every state change recurse to the unwind depth: 10.2 M program steps for two transitions instead of
 # 0.5 M with `-Z restrict-vtable` (measured). The recording listener's counters assert that the real target IS still called.
 # The selector / event-loop groups get it for the recursive drop glue of io::Error (Box<dyn Error> sources).
+# Not the pool groups (c02_join.rs): kani-compiler 0.68 ICEs with the restriction on `Box<dyn FnOnce>` built from fn items
+# (Task::new), and those harnesses make no coroutine state change.
 for _pid, _cfg in PROPS.items():
     for _g in _cfg["groups"]:
-        if any(m[0] in ("c07_state.rs", "c09_requests.rs", "c23_stack.rs", "c02_join.rs", "c20_selector.rs", "c14_wait.rs") for m in _g["mounts"]):
+        if any(m[0] in ("c09_requests.rs", "c23_stack.rs", "c14_wait.rs") for m in _g["mounts"]):
             _g.setdefault("kani_args", [])
             if "restrict-vtable" not in _g["kani_args"]:
                 _g["kani_args"] += ["-Z", "restrict-vtable"]
